@@ -4,9 +4,10 @@
 
   OBLIGATIONS (audited by `check` with `#print axioms`):
     for_each_eq_fold, enum_is_collected, get_eq_first, pull_get, unique_nodup, dedup_first, dedup_order,
-    break_stops, hash_order_irrelevant, wf_btree_fromInserts, wf_hash_fromInserts,
+    break_ignores_rest, break_stops, hash_order_irrelevant, wf_btree_fromInserts, wf_hash_fromInserts,
     wf_frame_pushInto, frame_lookup, frame_keys,
-    macro_get_eq_first, expand_wf, expand_wf_of_distinct, render_hole, macro_rename_breaks_lookup
+    macro_get_eq_first, expand_wf, expand_wf_of_distinct, expand_enum_perm, macro_site_coherent, render_hole,
+    macro_rename_breaks_lookup
 -/
 import EmitModel.Lemmas.Props
 
@@ -131,6 +132,20 @@ theorem dedup_order (p : P) :
   constructor
   · intro h; simp [enum, h]
   · intro h; simp only [enum, h]; exact sorted_collectFirst _
+
+/-- The same, spelled out: once the visitor has been handed the pairs `pre` without breaking and breaks on the next
+    pair, `for_each` returns `Break` with the visitor's state at that point — whatever the rest of the enumeration
+    is, it is never visited. -/
+theorem break_ignores_rest {σ : Type} (p : P) (f : Visitor σ) (s s' s'' : σ)
+    (pre post : List (String × Val)) (kv : String × Val) (he : enum p = pre ++ kv :: post)
+    (hpre : foldUntil (fun s kv => f s kv.1 kv.2) s pre = (s', false)) (hkv : f s' kv.1 kv.2 = (s'', true)) :
+    forEach p f s = (s'', true) := by
+  rw [forEach_eq, he, foldUntil_append]
+  show (match foldUntil (fun s kv => f s kv.1 kv.2) s pre with
+    | (s', true) => (s', true)
+    | (s', false) => foldUntil (unc f) s' (kv :: post)) = _
+  rw [hpre]
+  simp [foldUntil, hkv]
 
 theorem foldUntil_breakAt (i : Nat) (xs : List (String × Val)) : ∀ c, c ≤ i →
     foldUntil (fun (s : Nat) (_ : String × Val) => (s + 1, decide (i ≤ s))) c xs
@@ -299,6 +314,53 @@ theorem expand_wf_of_distinct (fields : List Field) (arr : List (String × Optio
     (he : expand fields = some arr) (hd : (fields.map (·.key)).Nodup) : WF (.macro arr) :=
   expand_wf fields arr he (hd.sublist (liveKeys_sublist fields))
 
+/-- The `(final name, value)` pairs of the fields that reach the runtime array with a value. -/
+def livePairs (fields : List Field) : List (String × Val) :=
+  fields.filterMap fun f => if f.cfg then f.val.map (fun v => (f.key, v)) else none
+
+theorem macroEnum_map (m : List (String × Field)) :
+    macroEnum ((m.filter (·.2.cfg)).map fun (x : String × Field) => (x.2.key, x.2.val))
+      = livePairs (m.map Prod.snd) := by
+  induction m with
+  | nil => rfl
+  | cons a m ih =>
+    obtain ⟨k, f⟩ := a
+    unfold livePairs at ih ⊢
+    by_cases hc : f.cfg
+    · cases hv : f.val with
+      | none => simp [hc, hv, macroEnum, ih]
+      | some v => simp [hc, hv, macroEnum, ih]
+    · simp [hc, ih]
+
+/-- **Nothing lost, nothing invented.** The enumeration of a macro-built collection is a permutation (identifier
+    order) of the `(final name, value)` pairs of the call site's enabled, value-carrying fields. -/
+theorem expand_enum_perm (fields : List Field) (arr : List (String × Option Val)) (he : expand fields = some arr) :
+    (enum (.macro arr)).Perm (livePairs fields) := by
+  simp only [expand, Option.map_eq_some_iff] at he
+  obtain ⟨m, hm, e⟩ := he
+  subst e
+  simp only [enum]
+  rw [macroEnum_map]
+  have hp := insertFields_perm fields [] m hm
+  simp only [List.map_nil, List.append_nil] at hp
+  unfold livePairs
+  exact hp.filterMap _
+
+/-- **Call sites, end to end.** For every field list the macro accepts whose final names are distinct: looking a
+    name up in the collection the call site builds returns the value of the field carrying that final name (first-
+    wins lookup in the call site's own field list, whatever order the macro sorted the array into), the collection's
+    uniqueness claim is honest, and lookup agrees with its enumeration. -/
+theorem macro_site_coherent (fields : List Field) (arr : List (String × Option Val)) (he : expand fields = some arr)
+    (hd : (fields.map (·.key)).Nodup) (k : String) :
+    get (.macro arr) k = lookupFirst k (livePairs fields) ∧
+    get (.macro arr) k = lookupFirst k (enum (.macro arr)) ∧
+    (keys (enum (.macro arr))).Nodup := by
+  have hwf := expand_wf_of_distinct fields arr he hd
+  have hn := unique_nodup (.macro arr) hwf rfl
+  refine ⟨?_, macro_get_eq_first arr k, hn⟩
+  rw [macro_get_eq_first]
+  exact lookupFirst_perm (expand_enum_perm fields arr he) hn k
+
 /-- **Interpolation.** A hole of a rendered template shows the first enumerated value of its key, and the
     `{label}` placeholder iff the enumeration never yields the key. -/
 theorem render_hole (p : P) (h : WF p) (l : String) :
@@ -331,6 +393,15 @@ example : WF sample := by
 example : get sample "a" = some (.int 1) ∧ get sample "b" = some (.int 3) ∧ get sample "z" = some (.int 6) := by decide
 example : WF (.dedup sample) ∧ isUnique (.dedup sample) = true := by
   simp [sample, WF, WFList, Sorted, macroEnum, isUnique]; decide
+def sampleSite : List Field :=
+  [⟨"a", "z", true, some (.int 1)⟩, ⟨"b", "b", false, some (.int 2)⟩, ⟨"c", "c", true, none⟩]
+example : (sampleSite.map (·.key)).Nodup ∧ expand sampleSite = some [("z", some (.int 1)), ("c", none)] := by
+  decide
+example : Sorted compare (pushInto [] [("b", Val.int 1), ("a", .int 2), ("b", .int 3)]) ∧
+    pushInto [] [("b", Val.int 1), ("a", .int 2), ("b", .int 3)] = [("a", .int 2), ("b", .int 3)] := by
+  refine ⟨sorted_pushInto sorted_nil _, by decide⟩
+example : enum sample = [("a", .int 1), ("a", .int 2), ("b", .int 3), ("", .str "x"), ("a", .int 5), ("z", .int 6), ("é", .int 4)] := by
+  decide
 example : (liveKeys [⟨"a", "z", true, some (.int 1)⟩, ⟨"b", "b", false, some (.int 2)⟩, ⟨"c", "c", true, none⟩]).Nodup := by
   decide
 
